@@ -132,6 +132,10 @@ func chainName(cfg map[string]int64, i int) string {
 	if cfg["weird_names"] == 0 {
 		return []string{"chain-a", "chain-b", "chain-c", "chain-d"}[i]
 	}
+	if cfg["weird_names"] == 2 {
+		// names that are prefixes of one another (and of the TSS counterparty's name)
+		return []string{"net", "net-1", "net-10", "net-100"}[i]
+	}
 	return nameAlphabet[(int(cfg["name_off"])+i*5)%len(nameAlphabet)]
 }
 
